@@ -175,6 +175,8 @@ type diffSide struct {
 
 func c01run(env *core.Env, idx int) core.CaseResult {
 	var res core.CaseResult
+	fsx.RecordInfos.Store(true)
+	_ = fsx.ChangedInfos() // (forget what an earlier case left)
 	m, _ := c01counts(env)
 	cs := c01case2(env, idx, nil)
 	ref, err := fsx.NewOSRef(env.Scratch)
@@ -302,6 +304,13 @@ func c01run(env *core.Env, idx int) core.CaseResult {
 	}
 	for _, sd := range sides {
 		sd.hs.CloseAll()
+	}
+	// an info that Stat returned earlier in the history describes the entry as it was THEN, whatever happened to it since
+	if len(res.Violations) == 0 {
+		for _, ch := range fsx.ChangedInfos() {
+			res.Violate("C01|Stat|returned-info-changed-later", fmt.Sprintf("%s (history %s)", ch, fsx.HistoryString(hist)), map[string]any{"history": fsx.HistoryString(hist)})
+			break
+		}
 	}
 	res.Key = core.Hash(fsx.HistoryString(hist))
 	res.Nontrivial = okMut > 0 && failed > 0
